@@ -38,12 +38,15 @@ def _elem_variants(mm, t, coords):
     out = []
     if k == "or":
         for i, it in enumerate(rt["items"]):
-            for lab, sub in _elem_variants(mm, it, coords + (i,))[:2]:
+            for lab, sub in _elem_variants(mm, it, coords + (i,)):
                 out.append(("alt%d/%s" % (i, lab), ("or", i, sub)))
         return out
     if mm.obj_props(rt) is not None and mm.obj_props(rt)[0]:
         out.append(("min", TGen(mm, rng_for(*coords, "min"), maxdepth=2, p_opt=0.0).gen(rt)))
         out.append(("max", TGen(mm, rng_for(*coords, "max"), maxdepth=2, p_opt=1.0).gen(rt)))
+        opt = [pn for pn, p in mm.obj_props(rt)[0].items() if p.get("optional")]
+        for pn in opt[:16]:
+            out.append(("only:" + pn, TGen(mm, rng_for(*coords, "only", pn), maxdepth=2, p_opt=0.0).gen(rt, 0, [("prop", pn)])))
         return out
     return [("v", TGen(mm, rng_for(*coords, "v"), maxdepth=2, p_opt=0.5).gen(rt))]
 
@@ -65,12 +68,17 @@ def alt_variants(mm, t, coords):
         return out
     if k == "or":
         for i, it in enumerate(rt["items"]):
-            for lab, sub in alt_variants(mm, it, coords + (i,))[:3]:
+            for lab, sub in alt_variants(mm, it, coords + (i,)):
                 out.append(("alt%d/%s" % (i, lab), ("or", i, sub)))
         return out
     if mm.obj_props(rt) is not None and mm.obj_props(rt)[0]:
         for lab, p in (("min", 0.0), ("max", 1.0), ("rnd", 0.5)):
             out.append((lab, TGen(mm, rng_for(*coords, lab), maxdepth=3, p_opt=p).gen(rt)))
+        # each optional property alone on top of the minimal object: hand-written discriminators
+        # probe single keys, so the deciding shapes are "required + exactly one optional"
+        opt = [pn for pn, p in mm.obj_props(rt)[0].items() if p.get("optional")]
+        for pn in opt[:16]:
+            out.append(("only:" + pn, TGen(mm, rng_for(*coords, "only", pn), maxdepth=2, p_opt=0.0).gen(rt, 0, [("prop", pn)])))
         return out
     for x in range(2):
         out.append(("v%d" % x, TGen(mm, rng_for(*coords, "v", x), maxdepth=3, p_opt=0.5).gen(rt)))
@@ -126,7 +134,7 @@ def directed_cases(mm, root, seed):
 
 def random_cases(mm, root, seed, n, **kw):
     for i in range(n):
-        g = TGen(mm, rng_for(seed, root.label, "rnd", i), maxdepth=1 + i % 6, p_opt=[0.2, 0.5, 0.8, 1.0, 0.35][i % 5], **kw)
+        g = TGen(mm, rng_for(seed, root.label, "rnd", i), maxdepth=1 + i % 8, p_opt=[0.2, 0.5, 0.8, 1.0, 0.35, 0.65, 0.1][i % 7], **kw)
         yield ("rnd%d" % i, g.gen(root.t))
 
 
@@ -149,7 +157,7 @@ def all_cases(mm, root, seed, tier, n_random=None, forced=True):
     for lab, tree in directed_cases(mm, root, seed):
         yield (lab, tree, None, None)
     if n_random is None:
-        n_random = 2 if tier == "quick" else 60
+        n_random = 24 if tier == "quick" else 400
     for lab, tree in random_cases(mm, root, seed, n_random):
         yield (lab, tree, None, None)
     if forced:
